@@ -269,6 +269,9 @@ func (its *document) PutToObject(key string, value interface{}) (Document, error
 	if err := its.assertLocalOp("PutToObject", TypeJSONObject, false); err != nil {
 		return nil, err
 	}
+	if key == "" || value == nil {
+		return nil, errors.DatatypeIllegalParameters.New(its.L(), "neither empty key nor null value is not allowed")
+	}
 	op := operations.NewDocPutInObjOperation(its.snapshot().getCreateTime(), key, value)
 	removed, err := its.SentenceInTx(its.TxCtx, op, true)
 	if err != nil {
@@ -337,6 +340,9 @@ func (its *document) InsertToArray(pos int, values ...interface{}) (Document, er
 	if err := arr.validateInsertPosition(pos); err != nil {
 		return its, err
 	}
+	if err := validateNoNullValue(its, values); err != nil {
+		return its, err
+	}
 	op := operations.NewDocInsertToArrayOperation(its.snapshot().getCreateTime(), pos, values)
 	if _, err := its.SentenceInTx(its.TxCtx, op, true); err != nil {
 		return its, err
@@ -380,6 +386,9 @@ func (its *document) UpdateManyInArray(pos int, values ...interface{}) ([]Docume
 	}
 	arr := its.snapshot().(*jsonArray)
 	if err := arr.validateGetRange(pos, len(values)); err != nil {
+		return nil, err
+	}
+	if err := validateNoNullValue(its, values); err != nil {
 		return nil, err
 	}
 	op := operations.NewDocUpdateInArrayOperation(its.snapshot().getCreateTime(), pos, values)
@@ -432,6 +441,15 @@ func (its *document) toDocument(child jsonType) Document {
 		SnapshotDatatype: datatypes.NewSnapshotDatatype(its.BaseDatatype, child),
 	}
 }
+func validateNoNullValue(its *document, values []interface{}) errors.OrdaError {
+	for _, v := range values {
+		if v == nil {
+			return errors.DatatypeIllegalParameters.New(its.L(), "null value cannot be inserted")
+		}
+	}
+	return nil
+}
+
 func (its *document) assertLocalOp(opName string, ofJSON TypeOfJSON, workOnGarbage bool) errors.OrdaError {
 	if its.GetTypeOfJSON() != ofJSON {
 		return errors.DatatypeInvalidParent.New(its.L(), opName, " is not allowed to ")
